@@ -205,9 +205,13 @@ def judge(run, scen, prefix="c06"):
             # the Method step runs with the churn inside its validation wait; the Round that follows sees the churned world
             cov["churn:%s" % ("command" if any(c["e"] == "Cmd" for c in s["cmds"]) else "no-command")] += 1
     viol = run.validate("Consolidation_Trace", "Consolidation_Trace.cfg", files, heap="3g", par=PROCS[run.tier], timeout=3000)
+    fresh = [v for v in run.viol if run.pmap.get(v.get("guard")) == run.pid and vlib.match_known(run.known, run.pid, v) is None]
     infra = [v for v in viol if v.get("guard", "").startswith("Infra_")]
     if infra:
-        raise vlib.InfraError("the home search could not decide %d commands (scenario too large for the oracle): %s" % (len(infra), infra[:3]))
+        msg = "the home search could not decide %d commands (scenario too large for the oracle): %s" % (len(infra), infra[:3])
+        if not fresh:      # a real-code violation decided on other commands stands on its own
+            raise vlib.InfraError(msg)
+        run.notes.append(msg)
     obs = collections.Counter("%s[%s]" % (v["guard"], v["sig"]) for v in viol if v.get("guard", "").startswith("Obs_"))
     for k, n in sorted(obs.items()):
         run.notes.append("observation (not judged): %s x%d" % (k, n))
@@ -219,7 +223,6 @@ def judge(run, scen, prefix="c06"):
         missing = [k for k in need if not cov[k]]
         if missing:
             msg = "vacuous binding: no real command of class %s was judged" % missing
-            fresh = [v for v in run.viol if run.pmap.get(v.get("guard")) == run.pid and vlib.match_known(run.known, run.pid, v) is None]
             if not fresh:
                 raise vlib.InfraError(msg)
             run.notes.append(msg)
